@@ -122,3 +122,59 @@ func Harness_C14_shapes() {
 	specCompare(data, sh.cfg, refs, logs)
 	VerifCover("done")
 }
+
+// Harness_C14_compaction: tables written by compaction are well-formed and hold exactly the merged records of their inputs.
+// bounds: as Harness_C07_pairs (2 tables over names a,b, all kinds, reflog entries and deletions), every range; ExactLogMessage both
+// covers: done, empty
+func Harness_C14_compaction() {
+	cfg := Config{BlockSize: 256, ExactLogMessage: VerifChoose(2) == 1, HashID: SHA1ID}
+	const k = 2
+	var specs []tabSpec
+	var readers []*Reader
+	for t := 0; t < k; t++ {
+		ts := genTabSpec(t, true, 20)
+		specs = append(specs, ts)
+		readers = append(readers, writeTabSpec(cfg, ts, uint64(t+1), uint64(t+1), string([]byte{'t', '0' + byte(t)})))
+	}
+	first := VerifIntRange(0, k-1)
+	last := VerifIntRange(first, k-1)
+	out, data := compactOnce(cfg, readers, first, last, nil)
+	if out == nil {
+		return
+	}
+	var rt [][]RefRecord
+	var lt [][]LogRecord
+	for t := first; t <= last; t++ {
+		rt = append(rt, specs[t].refs)
+		var ls []LogRecord
+		for _, l := range specs[t].logs {
+			ls = append(ls, specNormaliseLog(l, cfg.ExactLogMessage, 20))
+		}
+		lt = append(lt, ls)
+	}
+	var wantRefs []*RefRecord
+	for _, r := range specOverlayRefs(rt) {
+		r := r
+		if first == 0 && specRefIsDeletion(&r) {
+			continue
+		}
+		wantRefs = append(wantRefs, &r)
+	}
+	var wantLogs []*LogRecord
+	for _, l := range specOverlayLogs(lt) {
+		l := l
+		wantLogs = append(wantLogs, &l)
+	}
+	if len(wantRefs) == 0 && len(wantLogs) == 0 {
+		VerifAssert(len(out) == k-(last-first+1), "empty-compaction-adds-no-table")
+		VerifCover("empty")
+		return
+	}
+	// entries were normalised when first written: compare them as exact
+	cfgExact := cfg
+	cfgExact.ExactLogMessage = true
+	specCompare(data, cfgExact, wantRefs, wantLogs)
+	t := specDecodeTable(data)
+	VerifAssert(t.min == uint64(first+1) && t.max == uint64(last+1), "compacted-table-limits")
+	VerifCover("done")
+}
